@@ -44,6 +44,10 @@ TINY = [
     ({"msgs": ["close", "get"], "cuts": [], "close": False, "lookahead": 0, "workers": 1}, "locks", 2),
     ({"msgs": ["bad", "get"], "cuts": ["boundaries"], "close": True, "lookahead": 5, "workers": 1}, "locks", 1),
     ({"msgs": ["raise", "get"], "cuts": ["boundaries"], "close": False, "lookahead": 1, "workers": 1}, "attrs", 1),
+    ({"msgs": ["close", "get"], "cuts": ["boundaries"], "close": False, "lookahead": 1, "workers": 1,
+      "wait_wire": 1}, "attrs", 1),
+    ({"msgs": ["v10", "get"], "cuts": ["boundaries"], "close": False, "lookahead": 2, "workers": 2,
+      "wait_wire": 1}, "locks", 2),
     ({"msgs": ["close", "get"], "cuts": ["boundaries"], "close": False, "lookahead": 0, "workers": 1,
       "send_plan": [7, 0, 7, 0, 7, 0, 7, 0]}, "locks", 1),
     ({"msgs": ["v10", "get"], "cuts": ["boundaries"], "close": False, "lookahead": 1, "workers": 1,
@@ -223,7 +227,7 @@ def run(ctx):
     samples.append({"scenario": F22_IO_SCENARIO, "policy": "explore<=2 preemptions", "runs": r["runs"],
                     "per_level": r["per_preemption_level"], "f22_io_reproduced": f22_io[0]})
     for sc, gran, maxpre in TINY:
-        r = explore_case(sc, maxpre + (1 if thorough else 0), 6000 if thorough else 250, gran)
+        r = explore_case(sc, maxpre + (1 if thorough else 0), 6000 if thorough else (450 if gran == "attrs" else 250), gran)
         samples.append({"scenario": sc, "policy": "explore<=%d preemptions/%s" % (maxpre + (1 if thorough else 0), gran),
                         "runs": r["runs"], "per_level": r["per_preemption_level"], "truncated": r["truncated"]})
 
